@@ -1,0 +1,150 @@
+//! Synchronisation primitives used by the tower components.
+//!
+//! Without the `verif` feature these are exactly `std::sync::{Mutex, MutexGuard, Condvar}`.
+//! With it (verification hook H5) they are thin wrappers that report every acquisition, release,
+//! condition-variable wait and notification to an observer installed by the verification harness
+//! (lock-order recording and deterministic scheduling). The wrappers add no behaviour of their own.
+
+#[cfg(not(feature = "verif"))]
+pub use std::sync::{Condvar, Mutex, MutexGuard};
+
+#[cfg(feature = "verif")]
+pub use self::instrumented::{set_observer, Condvar, Mutex, MutexGuard, SyncObserver};
+
+#[cfg(feature = "verif")]
+mod instrumented {
+    use std::ops::{Deref, DerefMut};
+    use std::sync::atomic::{AtomicUsize, Ordering};
+    use std::sync::{Arc, LockResult, PoisonError, RwLock};
+
+    /// What the harness sees. `name` is the type name of the protected data.
+    pub trait SyncObserver: Send + Sync {
+        /// Called before blocking on the mutex (a deterministic scheduler parks the thread here).
+        fn before_lock(&self, mutex: usize, name: &'static str);
+        fn acquired(&self, mutex: usize, name: &'static str);
+        fn released(&self, mutex: usize, name: &'static str);
+        /// The thread is about to wait on `condvar`, releasing `mutex`.
+        fn wait_begin(&self, condvar: usize, mutex: usize);
+        /// The thread was woken up and holds `mutex` again.
+        fn wait_end(&self, condvar: usize, mutex: usize);
+        fn notified(&self, condvar: usize);
+    }
+
+    static OBSERVER: RwLock<Option<Arc<dyn SyncObserver>>> = RwLock::new(None);
+    static NEXT_ID: AtomicUsize = AtomicUsize::new(1);
+
+    pub fn set_observer(o: Option<Arc<dyn SyncObserver>>) {
+        *OBSERVER.write().unwrap() = o;
+    }
+
+    fn observer() -> Option<Arc<dyn SyncObserver>> {
+        OBSERVER.read().unwrap().clone()
+    }
+
+    #[derive(Debug)]
+    pub struct Mutex<T> {
+        inner: std::sync::Mutex<T>,
+        id: usize,
+    }
+
+    pub struct MutexGuard<'a, T> {
+        inner: Option<std::sync::MutexGuard<'a, T>>,
+        id: usize,
+    }
+
+    impl<T> Mutex<T> {
+        pub fn new(t: T) -> Self {
+            Mutex {
+                inner: std::sync::Mutex::new(t),
+                id: NEXT_ID.fetch_add(1, Ordering::SeqCst),
+            }
+        }
+
+        pub fn id(&self) -> usize {
+            self.id
+        }
+
+        pub fn lock(&self) -> LockResult<MutexGuard<'_, T>> {
+            let name = std::any::type_name::<T>();
+            if let Some(o) = observer() {
+                o.before_lock(self.id, name);
+            }
+            let res = self.inner.lock();
+            if let Some(o) = observer() {
+                o.acquired(self.id, name);
+            }
+            match res {
+                Ok(g) => Ok(MutexGuard { inner: Some(g), id: self.id }),
+                Err(p) => Err(PoisonError::new(MutexGuard { inner: Some(p.into_inner()), id: self.id })),
+            }
+        }
+    }
+
+    impl<T> Deref for MutexGuard<'_, T> {
+        type Target = T;
+        fn deref(&self) -> &T {
+            self.inner.as_ref().unwrap()
+        }
+    }
+
+    impl<T> DerefMut for MutexGuard<'_, T> {
+        fn deref_mut(&mut self) -> &mut T {
+            self.inner.as_mut().unwrap()
+        }
+    }
+
+    impl<T> Drop for MutexGuard<'_, T> {
+        fn drop(&mut self) {
+            if let Some(g) = self.inner.take() {
+                drop(g);
+                if let Some(o) = observer() {
+                    o.released(self.id, std::any::type_name::<T>());
+                }
+            }
+        }
+    }
+
+    #[derive(Debug)]
+    pub struct Condvar {
+        inner: std::sync::Condvar,
+        id: usize,
+    }
+
+    impl Default for Condvar {
+        fn default() -> Self {
+            Self::new()
+        }
+    }
+
+    impl Condvar {
+        pub fn new() -> Self {
+            Condvar {
+                inner: std::sync::Condvar::new(),
+                id: NEXT_ID.fetch_add(1, Ordering::SeqCst),
+            }
+        }
+
+        pub fn wait<'a, T>(&self, mut guard: MutexGuard<'a, T>) -> LockResult<MutexGuard<'a, T>> {
+            let id = guard.id;
+            let g = guard.inner.take().unwrap();
+            if let Some(o) = observer() {
+                o.wait_begin(self.id, id);
+            }
+            let res = self.inner.wait(g);
+            if let Some(o) = observer() {
+                o.wait_end(self.id, id);
+            }
+            match res {
+                Ok(g) => Ok(MutexGuard { inner: Some(g), id }),
+                Err(p) => Err(PoisonError::new(MutexGuard { inner: Some(p.into_inner()), id })),
+            }
+        }
+
+        pub fn notify_all(&self) {
+            if let Some(o) = observer() {
+                o.notified(self.id);
+            }
+            self.inner.notify_all();
+        }
+    }
+}
